@@ -184,6 +184,7 @@ Theorem C06_tsa_revocation : forall i, wf i = true -> i_scheme i = X509 -> Appli
   k_imprint (i_tok i) = true -> all_load i = true -> some_root i = true ->
   k_verify (i_tok i) = true -> k_rules (i_tok i) = true ->
   Forall (Inside (k_gen (i_tok i) - k_acc (i_tok i)) (k_gen (i_tok i) + k_acc (i_tok i))) (i_chain i) ->
+  shape_ok (k_tsalen (i_tok i)) (k_rev (i_tok i)) = true ->   (* one non-nil result per TSA certificate: see C06_tsa_result_shape *)
   rev_ok (k_rev (i_tok i)) = false ->
   verify_authentic_timestamp i = Failed WRevErr \/
   exists k, verify_authentic_timestamp i = Failed (WRevoked k) \/
@@ -379,6 +380,7 @@ Theorem C06_tsa_revoked_names : forall i, wf i = true -> i_scheme i = X509 -> Ap
   k_imprint (i_tok i) = true -> all_load i = true -> some_root i = true ->
   k_verify (i_tok i) = true -> k_rules (i_tok i) = true ->
   Forall (Inside (k_gen (i_tok i) - k_acc (i_tok i)) (k_gen (i_tok i) + k_acc (i_tok i))) (i_chain i) ->
+  shape_ok (k_tsalen (i_tok i)) (k_rev (i_tok i)) = true ->
   forall rs, k_rev (i_tok i) = VRes rs -> In RRevoked rs ->
   exists k, nth_error rs k = Some RRevoked /\ ~ In RRevoked (firstn k rs) /\
             verify_authentic_timestamp i = Failed (WRevoked (N.of_nat k)).
@@ -391,6 +393,7 @@ Theorem C06_tsa_unknown_names : forall i, wf i = true -> i_scheme i = X509 -> Ap
   k_imprint (i_tok i) = true -> all_load i = true -> some_root i = true ->
   k_verify (i_tok i) = true -> k_rules (i_tok i) = true ->
   Forall (Inside (k_gen (i_tok i) - k_acc (i_tok i)) (k_gen (i_tok i) + k_acc (i_tok i))) (i_chain i) ->
+  shape_ok (k_tsalen (i_tok i)) (k_rev (i_tok i)) = true ->
   forall rs, k_rev (i_tok i) = VRes rs -> ~ In RRevoked rs ->
   ~ Forall (fun r => r = ROK \/ r = RNonRevokable) rs ->
   exists k r, nth_error rs k = Some r /\ r <> ROK /\ r <> RNonRevokable /\
@@ -398,6 +401,44 @@ Theorem C06_tsa_unknown_names : forall i, wf i = true -> i_scheme i = X509 -> Ap
               verify_authentic_timestamp i = Failed (WRevUnknown (N.of_nat k)).
 Proof. exact step_unknown_names. Qed.
 Print Assumptions C06_tsa_unknown_names.
+
+(* ---------- "issued by an unrevoked TSA", no contract on the revocation validator ----------
+   (/repo d78db00: checkRevocationResults before revocationFinalResult) *)
+
+(* whatever the timestamping revocation validator answers: a pass means it
+   reported exactly one result per certificate of the TSA chain, each of them
+   OK or non-revokable — no hypothesis on the validator, none on the policy *)
+Theorem C06_unrevoked_tsa : forall i, i_scheme i = X509 -> Applies i ->
+  verify_authentic_timestamp i = Passed ->
+  exists rs, k_rev (i_tok i) = VRes rs /\
+    List.length rs = N.to_nat (k_tsalen (i_tok i)) /\
+    forall j, (j < N.to_nat (k_tsalen (i_tok i)))%nat ->
+      nth_error rs j = Some ROK \/ nth_error rs j = Some RNonRevokable.
+Proof. exact unrevoked_tsa. Qed.
+Print Assumptions C06_unrevoked_tsa.
+
+(* an answer with fewer or more results than TSA certificates, or with a nil
+   entry, never passes *)
+Theorem C06_bad_shape_never_passes : forall i rs, i_scheme i = X509 -> Applies i ->
+  k_rev (i_tok i) = VRes rs ->
+  (N.of_nat (List.length rs) <> k_tsalen (i_tok i) \/ In RNil rs) ->
+  verify_authentic_timestamp i <> Passed.
+Proof. exact bad_shape_never_passes. Qed.
+Print Assumptions C06_bad_shape_never_passes.
+
+(* the step itself: the count is compared first, then the first nil entry is named *)
+Theorem C06_tsa_result_shape : forall i, wf i = true -> i_scheme i = X509 -> Applies i ->
+  k_present (i_tok i) = true -> k_parses (i_tok i) = true -> k_info (i_tok i) = true ->
+  k_imprint (i_tok i) = true -> all_load i = true -> some_root i = true ->
+  k_verify (i_tok i) = true -> k_rules (i_tok i) = true ->
+  Forall (Inside (k_gen (i_tok i) - k_acc (i_tok i)) (k_gen (i_tok i) + k_acc (i_tok i))) (i_chain i) ->
+  forall rs, k_rev (i_tok i) = VRes rs ->
+  (N.of_nat (List.length rs) <> k_tsalen (i_tok i) -> verify_authentic_timestamp i = Failed WRevCount) /\
+  (N.of_nat (List.length rs) = k_tsalen (i_tok i) -> In RNil rs ->
+     exists k, nth_error rs k = Some RNil /\ ~ In RNil (firstn k rs) /\
+               verify_authentic_timestamp i = Failed (WRevNil (N.of_nat k))).
+Proof. exact step_shape. Qed.
+Print Assumptions C06_tsa_result_shape.
 
 (* the code reads the clock twice (verifyExpiry, then verifyTimestamp); with the
    expiry validation reading [te] and the other one [i_now i] nothing else
@@ -428,7 +469,7 @@ Proof.
 Qed.
 
 Example C06_example_no_token :
-  model (ex_in ["ca:s"; "tsa:a"] (mk_token false false false false 0 0 false false VErr))
+  model (ex_in ["ca:s"; "tsa:a"] (mk_token false false false false 0 0 false false 2 VErr))
   = mk_obs (Some true) (Some (Failed WNoToken)) true.
 Proof. reflexivity. Qed.
 
@@ -441,7 +482,7 @@ Proof. split; [|reflexivity]. intros H. apply applies_iff in H. discriminate. Qe
 Example C06_example_signing_authority :
   let i := mk_input 0 SigningAuthority (-80000) (Some 3600)
              [mk_cert (-360000) (-36000); mk_cert (-360000) 360000] ["signingAuthority:s"] OptUnset []
-             (mk_token false false false false 0 0 false false VErr) Enforce Enforce in
+             (mk_token false false false false 0 0 false false 2 VErr) Enforce Enforce in
   model i = mk_obs (Some true) (Some Passed) false /\
   model (with_sigtime i (-20000)) = mk_obs (Some true) (Some (Failed (WSigTime 0))) true.
 Proof. split; reflexivity. Qed.
@@ -449,7 +490,7 @@ Proof. split; reflexivity. Qed.
 (* expiry exactly now fails *)
 Example C06_example_expiry_now :
   model (mk_input 100 X509 0 (Some 100) [mk_cert (-5) 500] ["ca:s"] OptUnset []
-           (mk_token false false false false 0 0 false false VErr) Log Log)
+           (mk_token false false false false 0 0 false false 2 VErr) Log Log)
   = mk_obs (Some false) (Some Passed) false.
 Proof. reflexivity. Qed.
 
@@ -467,17 +508,17 @@ Qed.
 
 (* one token per step: the facts before the step hold, the step's fact does not *)
 Example C06_example_unparsable :
-  verify_authentic_timestamp (ex_in ["ca:s"; "tsa:a"] (mk_token true false false false 0 0 false false VErr))
+  verify_authentic_timestamp (ex_in ["ca:s"; "tsa:a"] (mk_token true false false false 0 0 false false 2 VErr))
   = Failed WParse.
 Proof. reflexivity. Qed.
 
 Example C06_example_bad_tstinfo :
-  verify_authentic_timestamp (ex_in ["ca:s"; "tsa:a"] (mk_token true true false false 0 0 false false VErr))
+  verify_authentic_timestamp (ex_in ["ca:s"; "tsa:a"] (mk_token true true false false 0 0 false false 2 VErr))
   = Failed WInfo.
 Proof. reflexivity. Qed.
 
 Example C06_example_wrong_message :
-  verify_authentic_timestamp (ex_in ["ca:s"; "tsa:a"] (mk_token true true true false 0 0 true true (VRes [ROK; ROK])))
+  verify_authentic_timestamp (ex_in ["ca:s"; "tsa:a"] (mk_token true true true false 0 0 true true 2 (VRes [ROK; ROK])))
   = Failed WImprint.
 Proof. reflexivity. Qed.
 
@@ -498,32 +539,32 @@ Proof.
 Qed.
 
 Example C06_example_untrusted_tsa :
-  verify_authentic_timestamp (ex_in ["ca:s"; "tsa:a"] (mk_token true true true true (-72000) 1 false false (VRes [ROK; ROK])))
+  verify_authentic_timestamp (ex_in ["ca:s"; "tsa:a"] (mk_token true true true true (-72000) 1 false false 2 (VRes [ROK; ROK])))
   = Failed WVerify.
 Proof. reflexivity. Qed.
 
 Example C06_example_mispurposed_tsa :
-  verify_authentic_timestamp (ex_in ["ca:s"; "tsa:a"] (mk_token true true true true (-72000) 1 true false (VRes [ROK; ROK])))
+  verify_authentic_timestamp (ex_in ["ca:s"; "tsa:a"] (mk_token true true true true (-72000) 1 true false 2 (VRes [ROK; ROK])))
   = Failed WRules.
 Proof. reflexivity. Qed.
 
 (* the range against the leaf window [-360000, -36000]: after it, before it,
    and touching its end (genTime + accuracy = notAfter is still inside) *)
 Example C06_example_outside_window :
-  verify_authentic_timestamp (ex_in ["ca:s"; "tsa:a"] (mk_token true true true true (-30000) 1 true true (VRes [ROK; ROK])))
+  verify_authentic_timestamp (ex_in ["ca:s"; "tsa:a"] (mk_token true true true true (-30000) 1 true true 2 (VRes [ROK; ROK])))
   = Failed (WTsAfter 0) /\
-  verify_authentic_timestamp (ex_in ["ca:s"; "tsa:a"] (mk_token true true true true (-400000) 1 true true (VRes [ROK; ROK])))
+  verify_authentic_timestamp (ex_in ["ca:s"; "tsa:a"] (mk_token true true true true (-400000) 1 true true 2 (VRes [ROK; ROK])))
   = Failed (WTsBefore 0) /\
-  verify_authentic_timestamp (ex_in ["ca:s"; "tsa:a"] (mk_token true true true true (-36001) 1 true true (VRes [ROK; ROK])))
+  verify_authentic_timestamp (ex_in ["ca:s"; "tsa:a"] (mk_token true true true true (-36001) 1 true true 2 (VRes [ROK; ROK])))
   = Passed /\
-  verify_authentic_timestamp (ex_in ["ca:s"; "tsa:a"] (mk_token true true true true (-36001) 2 true true (VRes [ROK; ROK])))
+  verify_authentic_timestamp (ex_in ["ca:s"; "tsa:a"] (mk_token true true true true (-36001) 2 true true 2 (VRes [ROK; ROK])))
   = Failed (WTsAfter 0).
 Proof. repeat split. Qed.
 
 (* revocation of the TSA chain: error; revoked (wins over an unknown in front
    of it); unknown; non-revokable counts as OK *)
 Example C06_example_tsa_revocation :
-  let tok v := mk_token true true true true (-72000) 1 true true v in
+  let tok v := mk_token true true true true (-72000) 1 true true 2 v in
   verify_authentic_timestamp (ex_in ["ca:s"; "tsa:a"] (tok VErr)) = Failed WRevErr /\
   verify_authentic_timestamp (ex_in ["ca:s"; "tsa:a"] (tok (VRes [ROK; RRevoked]))) = Failed (WRevoked 1) /\
   verify_authentic_timestamp (ex_in ["ca:s"; "tsa:a"] (tok (VRes [RUnknown; RRevoked]))) = Failed (WRevoked 1) /\
@@ -537,7 +578,7 @@ Proof. repeat split. Qed.
 Example C06_example_after_expiry_unexpired :
   let i w := mk_input 0 X509 (-80000) None [mk_cert w 36000; mk_cert (-360000) 360000]
                ["ca:s"; "tsa:a"] OptAfterCertExpiry [("a", SCerts)]
-               (mk_token false false false false 0 0 false false VErr) Enforce Enforce in
+               (mk_token false false false false 0 0 false false 2 VErr) Enforce Enforce in
   wf (i (-36000)) = true /\ ~ Applies (i (-36000)) /\
   Forall (Valid_at 0) (i_chain (i (-36000))) /\
   model (i (-36000)) = mk_obs (Some true) (Some Passed) false /\
@@ -545,7 +586,7 @@ Example C06_example_after_expiry_unexpired :
 Proof.
   assert (N : forall w, ~ Applies (mk_input 0 X509 (-80000) None [mk_cert w 36000; mk_cert (-360000) 360000]
                ["ca:s"; "tsa:a"] OptAfterCertExpiry [("a", SCerts)]
-               (mk_token false false false false 0 0 false false VErr) Enforce Enforce)).
+               (mk_token false false false false 0 0 false false 2 VErr) Enforce Enforce)).
   { intros w H. apply applies_iff in H. discriminate. }
   cbv zeta. split; [reflexivity|]. split; [apply N|]. split.
   - repeat constructor; unfold Valid_at; cbn; lia.
@@ -566,9 +607,9 @@ Proof. repeat split. Qed.
    certificate at notAfter = now is not "expired" for afterCertExpiry *)
 Example C06_example_boundaries :
   let x now w opt := mk_input now X509 0 None [w] ["ca:s"; "tsa:a"] opt [("a", SCerts)]
-                       (mk_token false false false false 0 0 false false VErr) Enforce Enforce in
+                       (mk_token false false false false 0 0 false false 2 VErr) Enforce Enforce in
   let sa t w := mk_input 999 SigningAuthority t None [w] ["signingAuthority:s"] OptUnset []
-                  (mk_token false false false false 0 0 false false VErr) Enforce Enforce in
+                  (mk_token false false false false 0 0 false false 2 VErr) Enforce Enforce in
   verify_authentic_timestamp (x 100 (mk_cert (-5) 100) OptAfterCertExpiry) = Passed /\
   verify_authentic_timestamp (x 101 (mk_cert (-5) 100) OptAfterCertExpiry) = Failed WNoToken /\
   verify_authentic_timestamp (x (-5) (mk_cert (-5) 100) OptAfterCertExpiry) = Passed /\
@@ -577,4 +618,17 @@ Example C06_example_boundaries :
   verify_authentic_timestamp (sa 100 (mk_cert (-5) 100)) = Passed /\
   verify_authentic_timestamp (sa (-6) (mk_cert (-5) 100)) = Failed (WSigTime 0) /\
   verify_authentic_timestamp (sa 101 (mk_cert (-5) 100)) = Failed (WSigTime 0).
+Proof. repeat split. Qed.
+
+(* the TSA chain has 2 certificates: an empty, a shorter and a longer answer
+   and one with a nil entry fail (before d78db00 the first two passed and the
+   third indexed out of range), even when a revoked result hides behind *)
+Example C06_example_result_shape :
+  let tok v := mk_token true true true true (-72000) 1 true true 2 v in
+  verify_authentic_timestamp (ex_in ["ca:s"; "tsa:a"] (tok (VRes []))) = Failed WRevCount /\
+  verify_authentic_timestamp (ex_in ["ca:s"; "tsa:a"] (tok (VRes [ROK]))) = Failed WRevCount /\
+  verify_authentic_timestamp (ex_in ["ca:s"; "tsa:a"] (tok (VRes [ROK; ROK; ROK]))) = Failed WRevCount /\
+  verify_authentic_timestamp (ex_in ["ca:s"; "tsa:a"] (tok (VRes [ROK; RNil]))) = Failed (WRevNil 1) /\
+  verify_authentic_timestamp (ex_in ["ca:s"; "tsa:a"] (tok (VRes [RRevoked; RNil]))) = Failed (WRevNil 1) /\
+  verify_authentic_timestamp (ex_in ["ca:s"; "tsa:a"] (tok (VRes [ROK; ROK]))) = Passed.
 Proof. repeat split. Qed.
